@@ -211,5 +211,5 @@ def body(rec, c):
         shutil.rmtree(work, ignore_errors=True)
 
 
-CHECKS = [Check("multi_vs_single", body, lambda: {"c": mp_case()}, quick=10, thorough=80, quick_shards=8,
-                thorough_shards=8, shrink_quick=False)]
+CHECKS = [Check("multi_vs_single", body, lambda: {"c": mp_case()}, quick=10, thorough=120, quick_shards=8,
+                thorough_shards=16, shrink_quick=False)]
